@@ -16,6 +16,7 @@ import (
 	"verifharness/gen"
 	"verifharness/impl"
 	"verifharness/rk"
+	"verifharness/sem"
 )
 
 const prop = "C17"
@@ -463,6 +464,28 @@ func runFaultCase(t rk.Failer, slot string, src string, span [2]int, name string
 	evid.Case(nontrivialKey, depth > 0, "error-position/"+map[bool]string{true: "load", false: "run"}[load])
 }
 
+
+// runFaultCaseV2 is the v2 counterpart for run-time faults (v2 has no point and only the probe function table).
+func runFaultCaseV2(t rk.Failer, slot string, src string, span [2]int, name string, depth int, key string) {
+	rp := replay{Src: src, Part: "error-v2", Fault: name, Span: span}
+	s, lerr, crash := impl.LoadV2("c17.p", src, sem.V2Fns())
+	if crash != nil {
+		rk.Fail(t, slot, rp, "v2 loader panicked on fault %s: %s\nsource: %q", name, crash.Value, src)
+	}
+	if lerr != nil {
+		return // not a v2 program (uses a v1-only builtin)
+	}
+	rerr, crash := impl.RunV2(s, nil)
+	if crash != nil || rerr == nil {
+		if rerr == nil && crash == nil {
+			evid.Discard("v2-run-fault-no-error:" + name)
+		}
+		return
+	}
+	checkChain(t, slot, rp, rerr, src, span, "v2 run error for "+name)
+	evid.Case("v2/"+key, depth > 0, "error-position/run-v2")
+}
+
 func TestErrorPositions(t *testing.T) {
 	rk.Check(t, "errors", 2, evid.Scale(3000, 30000), func(t *rapid.T) {
 		var stmt *gen.Node
@@ -492,6 +515,9 @@ func TestErrorPositions(t *testing.T) {
 		src := gen.Print(prog, lay)
 		span := [2]int{stmt.P.Start, stmt.P.End}
 		runFaultCase(t, "errors", src, span, name, load, d, fmt.Sprintf("%s/%d/%v", name, d, lay.NL > 0))
+		if !load && !strings.Contains(src, "add_key") && !strings.Contains(src, "load_json") && !strings.Contains(src, "undefined_name") {
+			runFaultCaseV2(t, "errors", src, span, name, d, fmt.Sprintf("%s/%d/%v", name, d, lay.NL > 0))
+		}
 		if d > 0 {
 			evid.Sample(map[string]any{"part": "error", "fault": name, "src": clip(src), "statement": src[span[0]:span[1]]})
 		}
@@ -516,6 +542,9 @@ func TestErrorPositionTable(t *testing.T) {
 			for li, lay := range []gen.Layout{gen.Minimal{}, &gen.Choices{C: []int{7, 2, 9, 4, 11, 1}}} {
 				src := gen.Print(prog, lay)
 				runFaultCase(t, "errtable", src, [2]int{s.P.Start, s.P.End}, name, load, nestd, fmt.Sprintf("table/%s/%d/%d", name, nestd, li))
+				if !load && !strings.Contains(src, "add_key") && !strings.Contains(src, "load_json") && !strings.Contains(src, "undefined_name") {
+					runFaultCaseV2(t, "errtable", src, [2]int{s.P.Start, s.P.End}, name, nestd, fmt.Sprintf("table/%s/%d/%d", name, nestd, li))
+				}
 				n++
 			}
 		}
@@ -696,6 +725,8 @@ func TestReplays(t *testing.T) {
 			switch c.Part {
 			case "error":
 				runFaultCase(t, "replay", c.Src, c.Span, c.Fault, c.Load, 1, "replay/"+c.Src)
+			case "error-v2":
+				runFaultCaseV2(t, "replay", c.Src, c.Span, c.Fault, 1, "replay/"+c.Src)
 			case "tree":
 				// re-derive the token offsets by printing is impossible from text alone: check Ln/Col consistency and in-range offsets
 				stmts, err, crash := impl.Parse("c17.p", c.Src)
